@@ -31,6 +31,9 @@ def http_scenarios(quick):
     scripts.append([R(429, 0), R(503), R(500)])
     scripts.append([R(500), R(err="conn"), R(err="conn")])
     forced += [(si, bi, rc, len(pols) - 1, "none", via) for si in (4, len(scripts) - 2, len(scripts) - 1) for bi in (0, 3) for rc in ("background", "values") for via in ("roundtripper", "request")]
+    # always: an upload that cannot be rewound for the second attempt (the execution ends with that error; nothing may be left behind)
+    bodies.append(("seekfail", 64))
+    forced += [(si, len(bodies) - 1, rc, pi, ec, via) for si in (2, 3) for rc in ("background", "values") for pi in (0, 1) for ec in ("none", "values") for via in ("roundtripper", "request")]
     for si, bi, rc, pi, ec, via in forced + combos:
         if not pols[pi] and len(scripts[si]) > 1:
             continue
@@ -120,7 +123,7 @@ def run_http(ctx, only_leaks=False):
         vlib.add_violation(ctx, "http:protocol:%s%s" % (lines[hwm[0] - 1]["ev"], ",seekable-body-reuse" if seekrace else ""), "line %d is not a step of specs/HttpAdapter.tla: %s" % (hwm[0], json.dumps(lines[hwm[0] - 1])[:300]), dict(scenario=sc, trace=tr))
     else:
         ctx.traces += len(scs)
-    leak_clauses = {"mergerLeak", "responseNotClosed"}
+    leak_clauses = {"mergerLeak", "responseNotClosed", "nilInnerSharesDefaultTransport"}
     for (clause, ln) in sorted(viols):
         if only_leaks != (clause in leak_clauses):
             continue
